@@ -257,7 +257,11 @@ def cli_batch(res):
                     continue
                 res.nontriv(('cli', src, ext))
                 inp = os.path.join(d, 'h%d%s' % (n, ext))
-                p8file.to_file(carts.make_game({}, version=33, code_lines=[src]), inp)
+                try:
+                    p8file.to_file(carts.make_game({}, version=33, code_lines=[src]), inp)
+                except Exception as e:
+                    res.violation('C19|cli|input-cart-raise|%s' % type(e).__name__, 'the valid source %r cannot be saved as a cart: %r' % (src, e), case)
+                    continue
                 try:
                     rc_ = tool.main(['luamin', inp])
                     got = b''.join(p8file.from_file(os.path.join(d, 'h%d_fmt%s' % (n, ext))).lua.to_lines())
